@@ -264,7 +264,21 @@ def _config(ctx, pydrex, case, scratch):
     if case["name"]:
         lines.append('name = "cfg-test"')
     lines.append("[input]")
-    lines += _write_inputs(pydrex, scratch, mode)
+    inp_lines = _write_inputs(pydrex, scratch, mode)
+    # keys of a lower-priority input method are documented as "mutually exclusive; ignoring ...": their presence, and the
+    # order of the keys inside the table, must not change which method is selected (mesh > velocity_gradient > paths)
+    if case["seed"] % 3 == 0:
+        extra = {"mesh": ['velocity_gradient = ["simple_shear_2d", "Y", "X", 5e-6]', 'locations_initial = "start.scsv"', 'paths = ["path001.npz", "path002.npz"]'],
+                 "calc": ['paths = ["path001.npz", "path002.npz"]', 'locations_final = "start.scsv"'],
+                 "paths": ['locations_initial = "start.scsv"', 'locations_final = "start.scsv"']}[mode]
+        _write_inputs(pydrex, scratch, "calc")
+        _write_inputs(pydrex, scratch, "paths")
+        keep = [x for x in extra if rng.random() < 0.7] or extra[:1]
+        inp_lines = inp_lines + keep
+        ctx.cls("input_with_ignored_keys_of_other_methods")
+    if case["seed"] % 2 == 0:
+        inp_lines = [inp_lines[int(j)] for j in rng.permutation(len(inp_lines))]
+    lines += inp_lines
     if mode == "paths" and rng.random() < 0.5:
         lines.append("timestep = 2.5e8")
         expected["input"]["timestep"] = 2.5e8
